@@ -20,7 +20,7 @@
 #undef protected
 #undef private
 namespace photon {
-enum { KW_NONE = 0, KW_MUTEX, KW_CV, KW_SEM, KW_SLEEP, KW_SPIN };
+enum { KW_NONE = 0, KW_MUTEX, KW_CV, KW_SEM, KW_SLEEP, KW_SPIN, KW_RELOCK };
 enum { KF_NONE = 0, KF_NOTIFIED, KF_TIMEDOUT, KF_INTR };
 static uint8_t K_kind[KN], K_flag[KN]; static int K_err[KN]; static bool K_finite[KN], K_lock_finite[KN];
 static void* K_obj[KN]; static mutex* K_mtx[KN]; static spinlock* K_spin[KN]; static uint64_t K_need[KN]; static unsigned K_seq[KN], K_seqno;
@@ -37,10 +37,12 @@ static inline void K_hand_mutex(mutex* m)             // the mutex is being rele
     if (w >= 0) { m->owner.store(K_tid(w)); K_kind[w] = KW_NONE; }
     else m->owner.store(nullptr);
 }
-static inline void K_want_mutex(int i, mutex* m)      // thread i must own m before it runs again
+static inline void K_want_mutex(int i, mutex* m)      // thread i (woken from a cv wait) must own m before it returns from wait()
 {
-    if (m->owner.load() == nullptr) { m->owner.store(K_tid(i)); K_kind[i] = KW_NONE; }
-    else { K_kind[i] = KW_MUTEX; K_obj[i] = m; K_seq[i] = ++K_seqno; K_finite[i] = false; }
+    // A woken waiter is merely runnable: it competes for the mutex when it next runs (it is NOT queued on the mutex at the moment it is
+    // notified - the real do_mutex_unlock only hands over to threads already sleeping in the mutex queue), so a locker that arrives
+    // before the woken waiter runs can take the mutex first.  The waiter stays "blocked" while the mutex is held.
+    K_kind[i] = KW_RELOCK; K_mtx[i] = m;
 }
 }
 namespace photon { volatile uint64_t now = 1000; __thread thread* CURRENT; }
@@ -52,18 +54,22 @@ uint32_t verif_get_tid();
 
 NOINL void K_init() { photon::now = 1000; for (int i = 0; i < KN; i++) { verif_set_tid(i); CURRENT = K_tid(i); } verif_set_tid(0); }
 // a thread that only needs a spinlock back (after a cv.wait(spinlock)) is runnable as soon as the spinlock is free; it takes it when picked
-NOINL uint32_t K_is_blocked(uint32_t i) { return K_kind[i] != KW_NONE && !(K_kind[i] == KW_SPIN && !K_spin[i]->locked()); }
-NOINL void K_try_unblock(uint32_t i) { if (K_kind[i] == KW_SPIN && !K_spin[i]->locked()) { K_spin[i]->lock(); K_kind[i] = KW_NONE; } }
-NOINL uint32_t K_can_timeout(uint32_t i) { return K_kind[i] != KW_NONE && K_finite[i]; }
+NOINL uint32_t K_is_blocked(uint32_t i) { return K_kind[i] != KW_NONE && !(K_kind[i] == KW_SPIN && !K_spin[i]->locked()) && !(K_kind[i] == KW_RELOCK && K_mtx[i]->owner.load() == nullptr); }
+NOINL void K_try_unblock(uint32_t i)
+{
+    if (K_kind[i] == KW_SPIN && !K_spin[i]->locked()) { K_spin[i]->lock(); K_kind[i] = KW_NONE; }
+    if (K_kind[i] == KW_RELOCK && K_mtx[i]->owner.load() == nullptr) { K_mtx[i]->owner.store(K_tid(i)); K_kind[i] = KW_NONE; }
+}
+NOINL uint32_t K_can_timeout(uint32_t i) { return K_kind[i] != KW_NONE && K_kind[i] != KW_SPIN && K_kind[i] != KW_RELOCK && K_finite[i]; }
 NOINL uint32_t K_timeout_event(uint32_t i)
 {
     if (K_kind[i] == KW_NONE || !K_finite[i]) return 0;
     K_flag[i] = KF_TIMEDOUT;
     if (K_kind[i] == KW_CV) {                          // must still re-acquire its lock
-        if (K_mtx[i]) { K_want_mutex(i, K_mtx[i]); return K_kind[i] == KW_NONE; }
-        K_kind[i] = KW_SPIN; K_try_unblock(i); return K_kind[i] == KW_NONE;
+        if (K_mtx[i]) K_want_mutex(i, K_mtx[i]); else K_kind[i] = KW_SPIN;
+        K_try_unblock(i); return K_kind[i] == KW_NONE;
     }
-    if (K_kind[i] == KW_SPIN) return 0;
+    if (K_kind[i] == KW_SPIN || K_kind[i] == KW_RELOCK) return 0;
     K_kind[i] = KW_NONE; return 1;
 }
 // ---- mutex
